@@ -185,6 +185,7 @@ def _derived(draw):
     chmode = draw(st.sampled_from(['pos', 'pos', 'flat'] if kind != 'sample' else ['pos', 'name', 'name', 'flat']))
     if kind == 'mixed':
         k = max(k, 2)
+    nonpos = kind == 'array' and draw(st.integers(0, 7)) == 0      # no positive value anywhere: derived T <= 0
     sets = []
     for i in range(k):
         skind = kind if kind != 'mixed' else ('sample' if i == 0 else ('array' if i == 1 else draw(st.sampled_from(['array', 'sample']))))
@@ -193,7 +194,10 @@ def _derived(draw):
             vals = draw(st.lists(st.one_of(st.floats(1e-3, 1e6), st.floats(-1e4, -1e-3),
                                            st.integers(0, 70000).map(float)),
                                  min_size=n, max_size=n))
-            vals[draw(st.integers(0, n - 1))] = draw(st.floats(1.5, 1e7))     # at least one positive
+            if nonpos:
+                vals = [draw(st.sampled_from([0.0, 0.0, -1.0, -250.5])) for _ in range(n)]
+            else:
+                vals[draw(st.integers(0, n - 1))] = draw(st.floats(1.5, 1e7))     # at least one positive
             sets.append(dict(kind='array', values=vals, width=draw(st.integers(1, 3))))
         else:
             spec = draw(sample_spec(min_d=1, max_d=3, min_n=1, max_n=25, datatypes=('I', 'F'), log_amp=False))
@@ -284,6 +288,14 @@ def check(case, obs):
         ch = {'pos': common, 'name': 'Common-A', 'flat': None}[chmode]
         obs.label('channel:' + chmode)
         over = case['over']
+        if exp_T <= 0 and 'T' not in over:
+            # no range is known and no value is positive: the documented T (the largest value) is not positive
+            obs.label('derived_T_nonpositive')
+            obs.nontrivial = True
+            t = call(FlowCal.plot._LogicleTransform, data=data if (case['as_list'] or len(data) > 1) else data[0],
+                     channel=ch, **over)
+            obs.claim('refuse', raised(t), lambda: 'a non-positive data-derived T was accepted: T=%r' % (getattr(t, 'T', None),))
+            return
         T = over.get('T', exp_T)
         M = over.get('M', max(4.5, 4.5 / math.log10(262144) * math.log10(T)))
         if 'W' in over:
